@@ -254,3 +254,64 @@ func isConstructorOf(fn *ssa.Function, st *types.Named) bool {
 	}
 	return false
 }
+
+// isLibraryAPI: fn is an exported function or method of a library package
+// (everything below knx/), i.e. an entry point applications call.
+func isLibraryAPI(fn *ssa.Function) bool {
+	if fn == nil || fn.Parent() != nil || fn.Object() == nil || !fn.Object().Exported() {
+		return false
+	}
+	pk := fnPkg(fn)
+	if pk == nil {
+		return false
+	}
+	path := pk.Pkg.Path()
+	return path == modPath+"/knx" || len(path) > len(modPath+"/knx/") && path[:len(modPath+"/knx/")] == modPath+"/knx/"
+}
+
+// rootsAPI is rootsOf with the library's API boundary: the upward walk stops
+// at exported library functions (they are called by applications, any number
+// of goroutines), and callers outside the library (cmd/...) are ignored.
+func (cg *CG) rootsAPI(fn *ssa.Function) []Root {
+	seen := map[*ssa.Function]bool{}
+	var out []Root
+	var walk func(f *ssa.Function)
+	walk = func(f *ssa.Function) {
+		if seen[f] {
+			return
+		}
+		seen[f] = true
+		if isLibraryAPI(f) {
+			out = append(out, Root{Kind: "api", Fn: f})
+			return
+		}
+		n := 0
+		for _, e := range cg.In[f] {
+			pk := fnPkg(e.Caller)
+			if pk != nil && !isLibraryPkg(pk.Pkg.Path()) {
+				continue
+			}
+			n++
+			if e.Async() {
+				out = append(out, Root{Kind: e.Kind, Fn: f, Site: e.Site})
+			} else {
+				walk(e.Caller)
+			}
+		}
+		if n == 0 {
+			out = append(out, Root{Kind: "api", Fn: f})
+		}
+	}
+	walk(fn)
+	sort.Slice(out, func(i, j int) bool {
+		if out[i].Fn.String() != out[j].Fn.String() {
+			return out[i].Fn.String() < out[j].Fn.String()
+		}
+		return out[i].Kind < out[j].Kind
+	})
+	return out
+}
+
+func isLibraryPkg(path string) bool {
+	return path == modPath+"/knx" || (len(path) > len(modPath)+5 && path[:len(modPath)+5] == modPath+"/knx/")
+}
